@@ -1,3 +1,5 @@
+import AmrK.HeaderCodec
+import AmrK.CellHCodec
 import AmrK.WritersSizes
 import AmrK.Obligations.ChkTables
 /-! # C17 — chk2plt carries the checkpoint's interior state into a valid plotfile -/
@@ -43,5 +45,15 @@ example :
     ((chk2plt [⟨"state_D_00000", 500, 8, 0, 80, [1, 2, 3]⟩, ⟨"state_D_00000", 0, 8, 0, 80, [4, 5, 6]⟩]
         (fun i => [10 + (i : Int)]) (fun i => [20 + (i : Int)]) true true).map (·.found))
       = [some (0, [1, 2, 3, 10, 20]), some (1, [4, 5, 6, 11, 21])] := by decide +kernel
+
+/-- **the headers of the written plotfile are read back as what they were printed from**: the
+    global header as its content (fields, mesh, time) and each level header as its index ranges,
+    binary files and offsets - for every number of fields, levels and boxes (the renderers are
+    compared byte for byte with the `Header` / `Cell_H` files the tool writes on every run) -/
+theorem written_headers_read_back (H : Header.HData) (hg : H.Good) (nf : Nat) (rows : List Taste.BoxRow)
+    (hr : ∀ r ∈ rows, r.Good) :
+    Header.parse (Header.render H) none = .ok (H.meta H.levels.length) ∧
+      Taste.parseCellH (Taste.renderCellH nf rows) nf = .ok (rows.map Taste.BoxRow.entry) :=
+  ⟨Header.parse_render H hg, Taste.parseCellH_render nf rows hr⟩
 
 end C17
